@@ -156,7 +156,15 @@ func Bytes(name string, maxLen int) []byte { return bytesOf(name) }
 // LenOnly is a byte slice of arbitrary length whose content is never inspected.
 func LenOnly(name string) []byte {
 	f, _ := num(name)
-	return make([]byte, int(f))
+	n := int(f)
+	b := make([]byte, n)
+	for i := range b {
+		b[i] = 'a'
+	}
+	if n > 0 {
+		b[n-1] = '\n'
+	}
+	return b
 }
 
 // Assume restricts the explored inputs from this point on.
